@@ -89,6 +89,52 @@ pub fn run(ctx: &mut Ctx) -> (&'static str, String, bool) {
             }
         }
     }
+    // ---- histories with several version packets: the gate must judge every one of them ----------------
+    for v in 0u16..=255 {
+        let v = v as u8;
+        for compressed in MODES {
+            let ping = vec![if compressed { 1 } else { 4 }, 3, 5, 3];
+            let ka = vec![if compressed { 1 } else { 4 }, 3, 0, 0];
+            let histories: [Vec<Vec<u8>>; 3] = [
+                vec![ver_frame(compressed, 1, 9), ping.clone(), ver_frame(compressed, 2, v), ver_frame(compressed, 3, 9)],
+                vec![ver_frame(compressed, 1, v), ver_frame(compressed, 2, 9), ka.clone(), ver_frame(compressed, 3, v)],
+                vec![ka.clone(), ver_frame(compressed, 1, 9), ver_frame(compressed, 2, 9), ver_frame(compressed, 3, v), ping.clone()],
+            ];
+            for (hi, frames) in histories.iter().enumerate() {
+                let stream: Vec<u8> = frames.concat();
+                for verify in [true, false] {
+                    for which in IMPLS {
+                        p.evaluations += 1;
+                        p.distinct(&("multi", v, compressed, hi, verify, which.name()));
+                        let case = ReadCase { compressed, stream: stream.clone(), read_plan: vec![], default_read: if hi == 1 { 3 } else { 0 }, write_plan: vec![], verify_version: verify, label: format!("multi-ver{v}-h{hi}-verify{verify}") };
+                        let o = run_read_case(which, &case);
+                        let (mut expect, _) = expected_results(&stream, compressed);
+                        if verify {
+                            for (i, f) in frames.iter().enumerate() {
+                                if f[1] == 2 && f[18] != 9 {
+                                    expect[i] = ReadResult::IncompatibleVersion(f[18]);
+                                }
+                            }
+                        }
+                        if o.results != expect || o.runaway {
+                            let at = o.results.iter().zip(expect.iter()).position(|(a, b)| a != b).unwrap_or(o.results.len().min(expect.len()));
+                            p.violation(
+                                format!("C09/{}/later-version-packet-misjudged", which.name()),
+                                format!(
+                                    "{} {} verify={verify}: history #{hi} with version packets, result #{at} is {} expected {}",
+                                    which.name(),
+                                    mode_name(compressed),
+                                    o.results.get(at).map(short).unwrap_or_else(|| "<none>".into()),
+                                    expect.get(at).map(short).unwrap_or_else(|| "<none>".into())
+                                ),
+                                json!({"impl": which.name(), "mode": mode_name(compressed), "verify": verify, "version": v, "stream": hex(&stream)}),
+                            );
+                        }
+                    }
+                }
+            }
+        }
+    }
     p.sample(json!({"stream": hex(&[&[1u8, 3, 5, 3][..], &ver_frame(true, 1, 8)[..]].concat()), "verify": true, "expected": ["Packet(Tiny ping)", "IncompatibleVersion(8)", "Disconnected"]}));
     // ---- every other kind is delivered in both settings ------------------------------------------
     let per_kind = ctx.tier.pick(20usize, 400usize);
